@@ -622,6 +622,22 @@ def component_rules(P, R, K, tab):
                 R.violation("C14.components", inst, "the elements of %s are taken from `%s`, amount-weighted totals, instead of %s: a phase at 0 mol or with an alternative formula "
                             "contributes no element names and its elements are missing from the component list" % (what, ", ".join(src) or "?", getter),
                             file=g["file"], line=blks[0][1], function=g["q"])
+    # reading the list is an observation: list_components works on copies of the stored entities
+    if lcs:
+        g = lcs[0]
+        muts = []
+        for c in T.calls(g["body"]):
+            for a in (c[4] or []):
+                a0 = T.strip_casts(a)
+                if a0[0] == "Un" and a0[2] == "&" and "second" in T.text(a0[3]) and ("it" in T.text(a0[3])):
+                    muts.append((c, "passes the address of the stored entry `%s` to %s" % (T.text(a0[3])[:30], T.callee_name(c))))
+            if T.is_node(c[3]) and "second" in T.text(c[3]) and c[2].get("k") == "method" and not c[2].get("const") and (c[2].get("cls") or "").startswith("cxx"):
+                muts.append((c, "calls the non-const %s on the stored entry" % T.callee_name(c)))
+        if muts:
+            R.violation("C14.components", "list_components:readonly", "list_components %s: asking for the component list changes the stored reactant (its DUMP differs depending on "
+                        "whether the list was read)" % muts[0][1], file=g["file"], line=muts[0][0][1], function=g["q"])
+        else:
+            R.ok("C14.components", "list_components:readonly", "every stored entity is copied before it is totalised")
     lc = P.fns_named("IPhreeqc::ListComponents")
     if not lc:
         R.anchor_missing("C14.components", "IPhreeqc::ListComponents not found")
